@@ -236,6 +236,21 @@ def run(ctx):
     if fz_bad:
         ctx.violation("frozen-final-record", {"what": "a component other than last() acted on the blank final record (the matcher's extra, frozen evaluation that lets last() fire): "
                                                       "push(\"p0\", line_number()) must record the scanned non-blank lines and nothing else", "case": fz_bad[0], "more": fz_bad[1:4]})
+    # skip() behind an onmatch-qualified component (whose look-ahead evaluates the skip() first): the line on which skip() fires is still not returned
+    sk_jobs = []
+    for fi, rows in enumerate([[["id", "a"], ["r1", "1"], ["r2", "2"], ["r3", "3"], ["r4", "2"]], [["id", "a"], ["r1", "2"], [], ["r3", "3"], ["r4", "4"], []]]):
+        for ti, (scan, body) in enumerate([("*", 'push.onmatch("seen", line_number()) skip(#a == "2")'), ("1*", 'push.onmatch("seen", line_number()) #a == "2" -> skip()'),
+                                           ("0-3", '@c.onmatch = count() skip(#a == "2") yes()')]):
+            fname = f"c13sk_{fi}_{ti}.csv"
+            lo, hi = (1, 99) if scan == "1*" else ((0, 3) if scan == "0-3" else (0, 99))
+            sk_jobs.append({"text": f"${fname}[{scan}][ {body} ]", "rows": rows, "fname": fname, "method": (fi + ti) % 2, "k": 0, "policy": ["collect", "print"],
+                            # (a when/do votes its condition: with `cond -> skip()` no other line matches either)
+                            "want": [] if "-> skip()" in body else [r[0] for k, r in enumerate(rows) if r and lo <= k <= hi and r[1] != "2"]})
+    sk_res = pmap(ctx, runloop.real_run, sk_jobs, chunksize=4)
+    sk_bad = [{"csvpath": j["text"], "rows": j["rows"], "returned": None if o["exc"] else [l[0] for l in o["lines"]], "expected": j["want"], "exc": o["exc"]}
+              for j, o in zip(sk_jobs, sk_res) if o["exc"] or [l[0] for l in o["lines"]] != j["want"]]
+    if sk_bad:
+        ctx.violation("skip-behind-onmatch", {"what": "a line on which skip() fired was returned (skip() placed after an onmatch-qualified component)", "case": sk_bad[0], "more": sk_bad[1:4]})
     fired = {repr(j[:4]) for j, o in zip(jobs, res) if not o["exc"] and (o["stopped"] or any(True for _ in o["vars"]))}
     # the translator tie: Scanner.includes / Scanner.is_last as written in the source of the tree under test, regenerated and
     # (when the text differs from the checked-in Scan/ScanSrc.v) re-proved equal to the model
